@@ -336,6 +336,7 @@ def spec_strategy(draw, algos):
     spec = {"algo": algo, "obs": fam, "obsv": draw(st.integers(0, 2)), "actv": draw(st.integers(0, 2)),
             "seed": draw(st.integers(0, 9999))}
     if algo in ("DDPG", "TD3"):
+        spec["share"] = draw(st.booleans())
         spec["act"] = draw(st.sampled_from(["box", "box_asym", "box_perdim"]))
     if algo in ag.MULTI_OFF:
         spec["act"] = draw(st.sampled_from(["box", "discrete"]))
